@@ -198,3 +198,21 @@ func FuzzC13Extension(f *testing.F) {
 	f.Add(make([]byte, 256))
 	f.Fuzz(rapid.MakeFuzz(prop))
 }
+
+// FuzzC13Differential: arbitrary bytes as the SGX extension value, judged against the reference reader.
+func FuzzC13Differential(f *testing.F) {
+	v := &gen.SgxValues{WithSgxType: true, WithConfig: true}
+	f.Add(gen.SgxTree(v).Encode())
+	v.Comp[3], v.Comp[15], v.PceSvn = 200, 255, 40000
+	v.PPID[0], v.Fmspc[5] = 0x99, 0x77
+	f.Add(gen.SgxTree(v).Encode())
+	top := gen.SgxTree(v)
+	top.Kids[0].Kids = append(top.Kids[0].Kids, gen.IntMin(5))
+	f.Add(top.Encode())
+	f.Add([]byte{0x30, 0x00})
+	f.Fuzz(func(t *testing.T, der []byte) {
+		if key, oracle, detail, _ := c13DiffOracle(der, 2); key != "" {
+			t.Fatalf("VIOLATED C13 key=%s oracle=%s: %s", key, oracle, detail)
+		}
+	})
+}
